@@ -567,6 +567,19 @@ class C16(Family):
         feat.update(extra)
         return feat
 
+    @staticmethod
+    def zero_noise(case, disc):
+        """level below which a value returned for an identically zero transfer function counts as 0:
+        1e-7 x the product of the largest entries of the input and output matrices of the realisation
+        the code's Hamiltonian test works on (the inverse-bilinear image for discrete time)"""
+        A_, B_, C_, D_ = mats(case)
+        if disc and case["n"]:
+            Ai = exmat.solve(exmat.add(A_, exmat.eye(case["n"])), exmat.eye(case["n"]))
+            if Ai is not None:
+                B_ = exmat.scale(F(2), exmat.mul(Ai, B_))
+                C_ = exmat.scale(F(2), exmat.mul(C_, Ai))
+        return F(1, 10 ** 7) * max(F(1), exmat.maxabs(B_) * exmat.maxabs(C_))
+
     def zero_tf(self, case):
         """transfer function identically zero (checked at 2n+1 points) and D = 0"""
         A, B, C, D = mats(case)
@@ -694,6 +707,12 @@ class C16(Family):
                            self.features(case, "returns-" + model["err"], impl))
         mo = model["ok"]
         disc = is_dtime(case["dt"])
+        if "diverged" not in mo and "val" in mo and "ok" in impl and "val" in impl["ok"] \
+                and case["n"] and self.zero_tf(case) and abs(F(impl["ok"]["val"])) < self.zero_noise(case, disc):
+            # identically zero transfer function for which the model's bisection happened to stop (at a
+            # value of order 1e-15) instead of running out of fuel: the same rule as below applies
+            # (thorough seed 12)
+            return Verdict(AGREE)
         if "diverged" in mo:
             # the loops of the code do not terminate in exact arithmetic
             if self.zero_tf(case):
